@@ -1569,7 +1569,10 @@ def check_root(ctx, calls, root):
         if dt == 'float32' or len(pts) > 80:
             continue                          # float32 sums may round; informational only
         arr = np.array(pts, dtype=dt).reshape(-1, 3)
-        bb = (arr[:, 0].min(), arr[:, 0].max(), arr[:, 1].min(), arr[:, 1].max(), arr[:, 2].min(), arr[:, 2].max())
+        # Python scalars: numba computes on int64 / float64 whatever the array dtype is (numpy
+        # int32 scalars would wrap in xmin + xmax)
+        bb = tuple(v.item() for v in (arr[:, 0].min(), arr[:, 0].max(), arr[:, 1].min(), arr[:, 1].max(),
+                                      arr[:, 2].min(), arr[:, 2].max()))
         try:
             r = [float(v) for v in root(arr, bb)]
         except Exception as e:  # noqa
